@@ -45,7 +45,8 @@ SIM_CHECKS = {
             'poll gaps above 64,536 ms are outside the property premise: exactness is suspended from the stall to the '
             'next effective set (monotonicity is still checked)',
             'a set to the value the clock already shows may keep the old sub-second phase or re-anchor; both accepted',
-            'seeded sampling of schedules, not the exhaustive phase x gap product: a clean batch is evidence, not proof',
+            'quick tier: seeded sampling of schedules only; thorough tier: sampling plus the exhaustive single-gap (phase x gap) product and a '
+            'carried-remainder family (exhaustive_phase_gap_sweep). A clean batch is evidence, not proof',
         ],
     },
     'C14': {
@@ -72,8 +73,9 @@ SIM_CHECKS = {
             'period may be clamped at once or after the first failure)',
             'liveness ("within a bounded time", no schedule named): the next request must be out within one largest period '
             '(max(initial, sync)) after the failure was noticed / the answer applied / the boot, plus 6 loop() calls once '
-            'simulated time has moved past that instant; after faults stop, a successful sync within time-out + largest '
-            'period + 1 s. Longer waits than the shipped schedule (early saturation, back-off counted from the failure) '
+            'that much POLLED time (milliseconds between loop() calls at most 64,536 ms apart; +1 s per over-long gap; re-based at '
+            'the first call after a failure) has gone by; after faults stop, a successful sync within largest period + 1 s + time-out + '
+            '2 s + two 60 s drain steps of polled time. Longer waits than the shipped schedule (early saturation, back-off counted from the failure) '
             'are accepted, shorter ones are not',
             'a response that is ready in the same call in which the timeout elapses may be applied or dropped',
             'one third of the runs (probe=0) never read the clock around loop(): the harness must not keep the clock alive '
@@ -99,7 +101,8 @@ SIM_CHECKS = {
             },
         },
         'rule': ('Each evaluation is one seeded run: 2-6 client TimeZone values (direct-bound to shared Basic/Extended '
-                 'processors, created by Basic/ExtendedZoneManager<1..4> via createForZoneInfo/createForZoneId, copies) '
+                 'processors, created by Basic/ExtendedZoneManager<1..4> by info, id, index, through the restore path, by NAME through the '
+                 'device\'s one line buffer (names present in the registry), copies) '
                  'over 1-3 zones per database, issuing 5-400 interleaved queries (getUtcOffset, getDeltaOffset, getAbbrev, '
                  'getOffsetDateTime, ZonedDateTime::forEpochSeconds/forComponents, printTo, printShortTo, getZoneId) with '
                  'in-range, year-boundary, boundary-year, far out-of-range and sentinel arguments; failing queries are '
@@ -111,7 +114,9 @@ SIM_CHECKS = {
             'the oracle is the repository code itself on a fresh processor: whether the fresh answer is right is C01/C02/C07',
             'two error values are equal whatever their payload',
             'a crash that reproduces with the final op alone on a new device is not a history dependence and is left to C09',
-            'name lookups (C10) and INT32-extreme arguments (C09) are kept out of this profile',
+            'absent / misspelt names (C10) and INT32-extreme arguments (C09) are kept out of this profile; an inexact name lookup that '
+            'needs no history (a manager built on the spot gives the same wrong zone) is not attributed',
+            'KEEP / USE: a ZonedDateTime the application keeps must read the same later (c08-history-kept)',
             '"fresh" is made robust against state that outlives a processor: an unrelated decoy zone is exercised between the client '
             'and the fresh processor (in a quarter of the runs also before the client), fresh answers must agree with earlier fresh '
             'answers to the same question in the run, and a sample of runs (every 96th in batch mode, every replay) is executed in a '
@@ -129,16 +134,21 @@ SIM_CHECKS = {
         'msan_stage': True,
         'rule': ('Each evaluation is one seeded run of the whole simulated device in the ASan+UBSan build: tz clients of every '
                  'kind (incl. manual / error), queries of every kind with valid, boundary, far out-of-range, sentinel, INT32-extreme '
-                 'and invalid-component arguments, failing queries repeated 1-3 times and interleaved with valid ones, save / reboot / '
+                 'and invalid-component arguments, failing queries repeated 0-3 times and re-asked after a valid neighbouring-year query, '
+                 'console lines (PARSE) cut short or garbled, names through one line buffer, kept ZonedDateTime values, save / TEAR (one '
+                 'stored byte overwritten) / reboot / '
                  'restore, and the SystemClockLoop with a faulty reference clock (queries at the clock\'s current time, incl. '
                  'the uninitialised sentinel). Monitors: any sanitizer report (attributed by source location), M2 errors stay '
-                 'errors on every repeat, M3 extended transition-pool high-water < transitionBufSize and < 8, basic dropped-'
+                 'errors on every repeat (M2\': whatever the code itself answered with an error stays an error for the rest of the run), every '
+                 'client question asked twice over different stack residue (c09-unstable-answer), M3 extended transition-pool high-water < transitionBufSize and < 8, basic dropped-'
                  'transition counter == 0. A run is non-trivial when some query met a processor in a non-fresh state. '
                  'distinct_nontrivial counts DISTINCT (query kind, argument class, client kind) tuples executed under sanitizers.'),
         'assumptions': [
             'decided here: the history / repetition half of C09 (no crash, no UB, no hang over call histories; errors persist; pools). '
-            'NOT decided: "for any argument values" (all 2^32 epoch seconds, all component tuples) and "every compiler-generated zone" '
-            '- those are input sweeps; a no-history UB met on the way is still reported or listed as a known finding',
+            'NOT decided: "for any argument values" (all 2^32 epoch seconds, all component tuples) and compiler-generated zones of arbitrary '
+            'sources - those are input sweeps; a no-history UB met on the way is still reported or listed as a known finding. Two side stages '
+            'run first in every tier: genm3 (pool bound for every zone the tree\'s own compiler generates from the reconstructed + synthetic '
+            'source) and msanprobe (a second seeded simulator without the C++ standard library, under MemorySanitizer)',
             'only genuine UB classes are enabled (-fsanitize=address,undefined); UB reports are made recoverable and turned into '
             'verdicts by a __ubsan_on_report hook, ASan errors are fatal and triaged from the in-flight seed',
             'UBSan reports each source location once per process, so within one batch only the first run reaching a site is attributed',
@@ -160,7 +170,7 @@ SIM_CHECKS = {
         'cells': 'c16',
         'crash_note_ops': ('Q', 'QR', 'QN'),
         'rule': ('Each evaluation is one seeded run of the device with its durable store: clients of all five kinds plus '
-                 'manual/UTC/error, SAVE (toTimeZoneData, serialised field by field into a 5-byte slot), REBOOT (every '
+                 'manual/UTC/error, SAVE (toTimeZoneData, the object\'s bytes copied into the store, as EEPROM.put() does), REBOOT (every '
                  'processor, manager and client destroyed; new managers with cache size 1..4 over the full registry or a '
                  'seeded sorted/shuffled subset of 0..40 zones that does or does not contain the saved id), RESTORE through '
                  'createForTimeZoneData, MANSET, interleaved query traffic keeping caches in arbitrary states. Oracle: the '
@@ -170,7 +180,9 @@ SIM_CHECKS = {
         'assumptions': [
             'a zone is identified by its ZoneInfo object; kind is TimeZone::getType()',
             'restored and directly created values are compared with each other, not with a fresh processor (that is C08)',
-            'the saved form is 5 bytes written whole: nothing is torn; the restart contributes configuration diversity',
+            'nothing is torn in this profile (TEAR is device-only): the restart contributes configuration diversity',
+            'manual offsets include the boundaries of the stored int16 fields; "standard plus DST" is asserted where the sum is representable, '
+            'at instants that include both ends of acetime_t',
         ],
         'extra_coverage': lambda total: {
             'zones_round_tripped': {'basic': len(total['cells'].get('c16.zones.b', ())),
